@@ -70,3 +70,9 @@ Definition check_fix_identical (cs : (float * float) * (float * float)) : bool :
 (* ModelCoefficients.from_np_arrays called directly: (coef_id as key, array, implementation's coefficients) -- exact *)
 Definition check_from_np (cs : model_key * list float * option (coeffs F)) : bool :=
   let '(id, x, expected) := cs in opt_eqb coeffs_same (from_np_arrays F id x) expected.
+
+(* get_T_bnds on the temperatures of a component: (T, segment_minimum_count, implementation's four limits; None = ValueError) *)
+Definition tc_same (a b : tconstr F) : bool :=
+  f_same (T_min a) (T_min b) && f_same (T_max a) (T_max b) && f_same (T_min_seg a) (T_min_seg b) && f_same (T_max_seg a) (T_max_seg b).
+Definition check_tbnds (cs : list float * nat * option (tconstr F)) : bool :=
+  let '(T, n, expected) := cs in opt_eqb tc_same (get_T_bnds F T n) expected.
